@@ -25,6 +25,10 @@ def gen_lines(kind, seed, n, **args):
     return [json.loads(l) for l in p.stdout.decode("utf-8").split("\n") if l.strip()]
 
 
+class NulInArgv(Exception):
+    pass
+
+
 class Run:
     __slots__ = ("rc", "out", "err", "timeout")
 
@@ -42,6 +46,10 @@ class Run:
 def run_cli(binary, args, stdin=b"", env=None, timeout=30, cap=8 << 20, wrapper=None):
     """Run the succinctly CLI once with a scrubbed environment."""
     cmd = (wrapper or []) + [binary] + list(args)
+    if any("\x00" in a for a in cmd if isinstance(a, str)):
+        # a NUL cannot be passed in argv at all: the case is outside what a CLI invocation can express
+        # reported to the caller like a watchdog firing: the case is set aside as inconclusive
+        return Run(None, b"", b"NUL byte in argv: not expressible as a CLI invocation", True)
     try:
         p = subprocess.run(cmd, input=stdin, env=driver.child_env(env), stdout=subprocess.PIPE,
                            stderr=subprocess.PIPE, timeout=timeout)
